@@ -9,7 +9,7 @@
 set -u
 export GOFLAGS=-mod=mod GOPROXY=off GOSUMDB=off GOTOOLCHAIN=local
 P=$1; V=$2; shift 2
-OUT=/tmp/wt/$P-out
+OUT=${OUTROOT:-/tmp/wt}/$P-out
 DIFF=$OUT/mut$V.diff
 DEMO=$OUT/demo$V
 [ -f "$DIFF" ] || { echo "no $DIFF"; exit 3; }
@@ -43,7 +43,8 @@ cp "$DIFF" "$D/patch.diff"; rm -rf "$D/demo"; cp -r "$DEMO" "$D/demo"
 python3 - "$P" "$V" "$build" "$tests" "$res_clean" "$res_mut" "$det" "${TIER:-quick}" <<'PY'
 import json,sys,re,os
 P,V,build,tests,clean,mut,det,tier=sys.argv[1:9]
-notes=open('/tmp/wt/%s-out/notes.md'%P).read() if os.path.exists('/tmp/wt/%s-out/notes.md'%P) else ''
+np=os.path.join(os.environ.get('OUTROOT','/tmp/wt'),P+'-out','notes.md')
+notes=open(np).read() if os.path.exists(np) else ''
 mp='/verif/seeded/%s-%s/meta.json'%(P,V)
 old=json.load(open(mp)) if os.path.exists(mp) else {}
 runs=old.get("checks_run",{})
